@@ -1,5 +1,7 @@
-import DnpProofs.Lemmas.Arr
-import DnpProofs.Lemmas.Perm
-import DnpProofs.Lemmas.Relabel
-import DnpProofs.Lemmas.Sort
+import DnpProofs.Props.C01
 import DnpProofs.Props.C02
+import DnpProofs.Props.C03
+import DnpProofs.Props.C04
+import DnpProofs.Props.C05
+import DnpProofs.Props.C10
+import DnpProofs.Props.C11
